@@ -22,6 +22,7 @@ QCov   == Quiet(UCov)
 QKinds == Quiet(UKinds)
 QNet   == Quiet(UNet)
 QZone  == Quiet(UZone)
+QMisc  == Quiet(UMisc)
 
 \* Clients!LoadConfig reads every file of exactly two clients.
 MCConfigs == UNION {UNION {
